@@ -239,7 +239,7 @@ impl Check for C02 {
             let (ws, rs) = if rep == 0 { (Schedule::whole(), Schedule::whole()) } else { (Schedule::random(&mut sr, total, wfl == Flavour::Sync), Schedule::random(&mut sr, total, rfl == Flavour::Sync)) };
             return json!({"kind": "sweep", "label": format!("{}:{}:{}:len={:#x}", exp.name(), dir.name(), warden_name(dir), len),
                 "exp": exp.name(), "dir": dir.name(), "warden": [[0, len]], "frames": frames, "names": names,
-                "wflavour": wfl.name(), "rflavour": rfl.name(), "rentry": entry, "wsched": sched_json(&ws), "rsched": sched_json(&rs)});
+                "wflavour": wfl.name(), "rflavour": rfl.name(), "rentry": entry, "wsched": sched_json(&ws), "rsched": sched_json(&rs), "encrypted_too": true});
         }
         let exp = *cf.pick(&Exp::ALL);
         let dir = if cf.chance(1, 2) { Dir::Client } else { Dir::Server };
@@ -299,9 +299,10 @@ impl Check for C02 {
         } else {
             vec![]
         };
+        let encrypted_too = cf.chance(1, 4);
         json!({"kind": "session", "label": format!("{}:{}:{}", exp.name(), dir.name(), names.join("+")),
             "exp": exp.name(), "dir": dir.name(), "frames": frames, "names": names, "wrong_expect": wrong, "warden": warden,
-            "wflavour": wfl.name(), "rflavour": rfl.name(), "rentry": entry, "wsched": sched_json(&ws), "rsched": sched_json(&rs)})
+            "wflavour": wfl.name(), "rflavour": rfl.name(), "rentry": entry, "wsched": sched_json(&ws), "rsched": sched_json(&rs), "encrypted_too": encrypted_too})
     }
 
     fn exec(&self, sc: &Value) -> Outcome {
@@ -322,6 +323,22 @@ impl Check for C02 {
             return o;
         }
         run_session(&mut o, exp, dir, &wl, sc, None);
+        // "... and their encrypted variants": the same session once more through the encrypting writers and the
+        // decrypting readers (fixed key; C05 varies keys and judges the ciphertext itself)
+        if sc["encrypted_too"] == true && o.violations.is_empty() {
+            let mut e = Outcome::default();
+            run_session(&mut e, exp, dir, &wl, sc, Some([0x5Au8; 40]));
+            for (k, v) in e.counters.iter() {
+                o.count(&format!("encrypted_pass_{}", k), *v);
+            }
+            o.count("encrypted_pass_runs", 1);
+            o.violations.extend(e.violations.into_iter().map(|mut v| {
+                v.sig = format!("encrypted:{}", v.sig);
+                v
+            }));
+            o.log_hash ^= e.log_hash.rotate_left(17);
+            o.bytes += e.bytes;
+        }
         o
     }
 
